@@ -31,9 +31,14 @@ Theorem C36_persistent : forall s e s' t ts, reach s -> step s e s' ->
 Proof. exact persistent. Qed.
 Print Assumptions C36_persistent.
 
-(* while a callback runs the counter is at least 2, so gil_release never destroys the state *)
+(* the counter accounts for every unreturned entry: the keep-alive reference of
+   thread_canary_register, the outer callback, every callback entered with the GIL already held
+   (gil_ensure's PyGILState_LOCKED branch) and the thread's own PyGILState_Ensure; in particular it is
+   at least 2 inside a callback, so no gil_release / PyGILState_Release destroys the state *)
 Theorem C36_counter_keeps_alive : forall s t ts k d, reach s -> thr s t = Alive -> gts s t = Some ts ->
-  tss s ts = TsLive t k d -> incb s t = true -> 2 <= k.
+  tss s ts = TsLive t k d ->
+  (reg s = None -> 1 + (if incb s t then 1 else 0) + nest s t + (if ownb s t then 1 else 0) <= k) /\
+  (incb s t = true -> 2 <= k).
 Proof. exact counter_keeps_alive. Qed.
 Print Assumptions C36_counter_keeps_alive.
 
@@ -120,6 +125,16 @@ Print Assumptions C36_ring_linked_iff.
 Theorem C36_make_zombie_guarded : gen_make_zombie_guarded = true.
 Proof. reflexivity. Qed.
 
+(* regenerated from gil_ensure / gil_release: with an existing thread state the counter is incremented
+   exactly once on BOTH paths — the one that takes the GIL (model event EvCb, returns PyGILState_UNLOCKED)
+   and the one entered with the GIL already held (EvCbNested, returns PyGILState_LOCKED) — and gil_release
+   is PyGILState_Release(oldstate), which decrements on both (EvCbEnd / EvCbNestedEnd).  The model's events
+   assume exactly this; an increment missing on one path makes the corresponding fact false. *)
+Theorem C36_gen_gil_ensure_counts :
+  gen_gil_ensure_incr_unlocked = true /\ gen_gil_ensure_incr_locked = true /\ gen_gil_release_plain = true.
+Proof. repeat split; reflexivity. Qed.
+Print Assumptions C36_gen_gil_ensure_counts.
+
 Theorem C36_runner_sound : forall s e s', reach s -> mstep s e = Some s' -> reach s'.
 Proof. exact mstep_reach. Qed.
 Print Assumptions C36_runner_sound.
@@ -136,6 +151,14 @@ Print Assumptions C36_drop_clears_backpointer.
 Example C36_example_drop :
   mrun 2 init [MCb 0; MDrop 0; MCbEnd 0; MCb 0; MCbEnd 0; MExit 0; MCb 1; MCbEnd 1; MExit 1]
   = Some [[1;0;0;0]; [0;0;0;0]; [0;0;0;0]; [1;0;0;0]; [0;0;0;0]; [0;0;0;0]; [2;0;0;0]; [0;0;0;0]; [0;0;0;0]].
+Proof. vm_compute. reflexivity. Qed.
+
+(* callbacks entered with the GIL held (nested in an outer callback; inside the thread's own
+   PyGILState_Ensure bracket) keep the same thread state, before and after *)
+Example C36_example_gil_held :
+  mrun 2 init [MCb 0; MNest 0; MNest 0; MCbEnd 0; MOwn 0; MCb 0; MCbEnd 0; MOwn 0; MExit 0; MCb 1; MCbEnd 1]
+  = Some [[1;0;0;0]; [1;0;0;0]; [1;0;0;0]; [0;0;0;0]; [1;0;0;0]; [1;0;0;0]; [0;0;0;0]; [1;0;0;0]; [0;0;0;0];
+          [2;1;0;0]; [0;1;0;0]].
 Proof. vm_compute. reflexivity. Qed.
 
 (* non-vacuity: two threads call back, overlap, thread 0 exits, a third thread's first callback
